@@ -98,9 +98,13 @@ CLAIMS = {
          "quoted pairs connect all n currencies (C09_complete: graph argument - a connected incomplete graph has a node "
          "with two unconnected neighbours, exhausted nodes are cliques, the populated count strictly grows) and never "
          "returns one when they do not (C09_disconnected_rejected: closed sets stay closed); C09_seed_edges says which "
-         "pairs the seed populates. The graph fact 'n-1 quotes: connected <=> tree' is standard and not restated.",
+         "pairs the seed populates. NO POTENTIAL ASSUMED (C09_tree_arbitrage_free; Proofs/TreePotential.lean): n-1 edges "
+         "connecting n vertices form a tree and on a tree every assignment of commutative-group elements to the edges is a "
+         "coboundary (union-find run with a Finset.card count of the classes), so whenever the triangulation returns a "
+         "result for n-1 non-zero quotes over n currencies a non-vanishing potential u with quote = u_a/u_b EXISTS and "
+         "every one of the n x n rates equals u_i/u_j.",
     design_ref="DESIGN.md §3 C09",
-    note=_corr + "tree <=> connected for n-1 edges not restated; f64 rounding modelled.",
+    note=_corr + "f64 rounding not modelled (theorems over fields).",
     technique="Lean 4 proof (loop invariants by induction over the triangulation, field algebra) + differential correspondence + model-free oracle"),
  "C10": dict(
     text="Lean 4 theorems: naming of lifted quotes (C10_naming); refused updates change nothing "
@@ -114,10 +118,13 @@ CLAIMS = {
          "alone crosses (the two sides of the edge in the tree): +cross/quote or -cross/quote on the path (sign by "
          "direction of travel), 0 off it (C10_sensitivity_cases); C10_sensitivity_general for quotes that are already "
          "dual numbers; second order C10_second_order_same (1/2 cross (s^2 - s)/quote^2) and C10_second_order_cross "
-         "(1/2 cross s0 s1/(quote0 quote1)).",
+         "(1/2 cross s0 s1/(quote0 quote1)). NO POTENTIAL OR CUT ASSUMED (C10_sensitivity_tree, "
+         "C10_second_order_same_tree, C10_second_order_cross_tree; Proofs/FXTree.lean): whenever create_fx_array returns an "
+         "array for n-1 non-zero plain-number quotes over n currencies the potential and a 0/1 cut for every quote EXIST, so "
+         "every sensitivity is +cross/quote, -cross/quote or 0.",
     design_ref="DESIGN.md §3 C10",
-    note=_corr + "the existence of a cut for every edge of a tree, like the potential u of C09, is a hypothesis (graph theory "
-         "not restated).",
+    note=_corr + "f64 rounding not modelled (theorems over R); quotes that are already dual numbers are covered by the "
+         "general form with a potential hypothesis (C10_sensitivity_general).",
     technique="Lean 4 proof (state machine, homomorphism/parametricity and relation-preservation of the triangulation) + differential correspondence + model-free oracle"),
  "C11": dict(
     text="Lean 4 theorems: index_left terminates and returns the clamped bracketing interval for every list of >= 2 nodes "
@@ -256,8 +263,10 @@ CLAIMS = {
          "genuine defects (abort on bad NamedCal/FXRates documents, panic on an empty currency list, csolve panic on "
          "singular systems, unvalidated Dual/Dual2, Ccy/FXPair and PPSpline documents), all repaired (known_findings.json). "
          "Curve documents are modelled as well (C20_load_curve: derived visitors, the i64-keyed node map read from the raw "
-         "key text, unit-variant enums, CalType). PARTIAL: termination of the adjustment loops is under the "
-         "hypothesis that a business day is within `fuel` days (false only for a calendar with no working weekday).",
+         "key text, unit-variant enums, CalType). TERMINATION: every adjustment returns a date once the fuel exceeds the "
+         "distance to the span of the holidays plus 8 days, for every calendar with a working weekday and every combination "
+         "whose parts share one (C20_adjust_terminates, C20_cal_adjust_terminates, C20_union_adjust_terminates) - so the real "
+         "loops, which carry no fuel, terminate; a calendar with no (common) working weekday is the excluded point.",
     design_ref="DESIGN.md §3 C20",
     note="Trusted: Lean kernel; the hand-written model's placement of panic markers (validated by catch_unwind on every "
          "call); the driver's JSON tokenizer; chrono/serde_json/ndarray themselves. Rust's Unicode lower-casing modelled "
